@@ -99,7 +99,8 @@ Definition check_case (c : case) : list N :=
       flag (robs_eqb l (obs_of ab_c) && robs_eqb r (obs_of a_bc) &&
             (errl =? N.max (merr_code e1) (merr_code e2)) && (errr =? N.max (merr_code e3) (merr_code e4))) V_MISMATCH ++
       flag (kvs_eqb (fst l) (fst r) && robs_wf l &&
-            later_wins_ok [fst oa; fst ob; fst oc] (fst l) && (errl <? 2) && (errr <? 2)) V_SPECFAIL
+            later_wins_ok [fst oa; fst ob; fst oc] (fst l) && (errl <? 2) && (errr <? 2) &&
+            Bool.eqb (bytes_eqb (snd l) (snd r)) (schema_assoc_cond (snd oa) (snd ob) (snd oc))) V_SPECFAIL
   | CEqual da db oa ob eq12 eq21 key12 =>
       let e := res_equal (model_res da) (model_res db) in
       flag (Bool.eqb eq12 e && Bool.eqb eq21 (res_equal (model_res db) (model_res da)) &&
